@@ -81,8 +81,8 @@ CHECKS = {
                 "(induction over operation sequences); ServerMutateTicks::confirm/contains and TickMessages unbounded with Verus on the verbatim code, "
                 "default/clear/mask completely with Kani on the real 64-slot ring.",
         "design_ref": "DESIGN.md §4 U1-U3, §5 C12",
-        "note": "Trusted: Kani/CBMC/CaDiCaL, Verus/Z3, vstd's VecDeque specification. ServerMutateTicks::contains_any is outside both verifiers and is covered only by a BOUNDED native run on the real code (labelled bounded in the evidence, not counted). Not covered: the Bevy systems calling these (confirm_tick, apply_mutate_messages) and the server-side "
-                "message count stamping; the end-to-end 'notification exactly once' clause is decided only at function level.",
+        "note": "Trusted: Kani/CBMC/CaDiCaL, Verus/Z3, vstd's VecDeque specification. ServerMutateTicks::contains_any is outside both verifiers and is covered only by a BOUNDED native run on the real code (labelled bounded in the evidence, not counted). The Bevy systems calling these (apply_mutate_messages) and the server-side message count stamping - the end-to-end 'fully received, notified exactly once' clause - "
+                "are covered only by a BOUNDED native stand-in (u03s: real server and client app with tracking on, every sequence of mutation/delivery steps to depth 3/4 with held, reordered and lost mutate messages; labelled bounded, not counted as proved). Not covered: confirm_tick's callers on the entity level (ConfirmHistory component updates).",
         "technique": "contract-based deductive verification: Kani/CBMC function contracts (assume-pre/assert-post, full-domain symbolic inputs; attribute form with proof_for_contract/stub_verified in the thorough tier) and Verus contracts on the verbatim code",
     },
 }
